@@ -8,5 +8,5 @@ while read -r prop sp n fams tag; do
   [ -z "$prop" ] && continue
   out=/verif/work/evalseeds/r4-${tag:-first}-$sp-$n-$prop.json
   [ -s $out ] && continue
-  python3 /verif/tools/now_family.py $prop $fams $WT /tmp/seed4-$sp/SEED$n/patch.diff -r4$L $out
+  python3 /verif/tools/now_family.py $prop $fams $WT /verif/seeded/$sp-r4s$n/patch.diff -r4$L $out
 done < $Q
